@@ -191,6 +191,8 @@ def run_loop(engine, st, stmt, ctl):
         raise Unsupported(f"loop {k} (line {engine.line(stmt)}) has no invariant")
     ctl.spec = spec
     ctl.init(st)
+    for g, (ginit, _gstep) in spec.ghosts.items():
+        st.vars[g] = engine.box(st, engine.unbox_value(st, engine.eval_spec_value(st, ginit)))
     # 1. entry
     ctl.bind_head(st)
     for j, inv in enumerate(spec.inv):
@@ -199,6 +201,7 @@ def run_loop(engine, st, stmt, ctl):
     # 2. arbitrary iteration
     names, paths = modified_paths(engine, stmt.body)
     names |= set(ctl.hidden())
+    names |= set(spec.ghosts)
     if isinstance(stmt, ast.For):
         tnames = set()
         for n in ast.walk(stmt.target):
@@ -228,11 +231,20 @@ def run_loop(engine, st, stmt, ctl):
     s_it = s1.clone()
     s_it.assume(c)
     if engine.feasible(s_it):
+        iter_old = (dict(s_it.vars), dict(s_it.heap))
         ctl.begin(s_it)
         for s2, oc in engine.exec_block(s_it, stmt.body):
             if oc in ("normal", "continue"):
                 ctl.end(s2)
                 ctl.bind_head(s2)
+                s2.iter_old = iter_old
+                for g, (_ginit, gstep) in spec.ghosts.items():
+                    s2.vars[g] = engine.box(s2, engine.unbox_value(s2, engine.eval_spec_value(s2, gstep)))
+                # iteration contracts first: each is assumed once proved, so
+                # they also serve as stepping stones for invariant preservation
+                for j, cl in enumerate(spec.step):
+                    g = engine.eval_spec(s2, cl)
+                    engine.oblige(s2, g, f"loop {k} iteration contract {j}: {cl}", "loop-step", stmt)
                 for j, inv in enumerate(spec.inv):
                     g = engine.eval_spec(s2, inv)
                     engine.oblige(s2, g, f"loop {k} invariant {j} preserved: {inv}", "inv-preserve", stmt)
